@@ -176,6 +176,23 @@ def run_case(case):
                      'step=%r y=%r: first call %r, second call on the same '
                      'arrays %r (arrays afterwards: %r)'
                      % (step, y, rep[:4], again[:4], list(y_arr))))
+    if all(float(v).is_integer() for v in x):
+        # the same abscissae as whole numbers (epoch seconds are integers in
+        # the database): the crossings are the same points
+        try:
+            rep_i = [(int(n), float(xx)) for n, xx in regrid_mod.regrid(
+                np.array([int(v) for v in x], dtype='int64'), y_arr, step)]
+        except Exception as exc:  # pylint: disable=broad-except
+            rep_i = None
+            viol.append(('crash:' + exc_site(exc),
+                         'integer abscissae: %r' % (exc,)))
+        if rep_i is not None and (
+                [n for n, _ in rep_i] != [n for n, _ in rep]
+                or any(not abs(a - b) <= 1e-9 * max(1.0, abs(b) * 1e-6)
+                       for (_, a), (_, b) in zip(rep_i, rep))):
+            viol.append(('integer-abscissae-differ',
+                         'step=%r y=%r: with x as int64 %r, with the same x '
+                         'as float64 %r' % (step, y, rep_i[:4], rep[:4])))
     why, n_amb = crossings.compare(x, y, step, rep)
     if why:
         viol.append((why[0], 'step=%r x=%r y=%r: %s' % (step, x, y, why[1])))
